@@ -1,6 +1,7 @@
 SPECIFICATION TraceSpec
 CONSTANTS
   MaxLen = 0
+  ArrayNs = {1, 2, 3, 4, 5, 8, 16}
 INVARIANTS TypeOK LiveInv Refines RemainderInv ItemsInside ArithInv
 CONSTRAINT Progress
 POSTCONDITION Accepted
